@@ -1,16 +1,16 @@
 PROP = dict(
     gen=["tpdulayouts", "smsoctets"],
-    proof_files=["Properties/C18.v", "Proofs/TpduTotal.v", "Proofs/TpduReader.v"],
-    model_files=["Model/SemiOctet.v", "Model/Tpdu.v", "Model/TpduRun.v", "Model/TpduReader.v"],
+    proof_files=["Properties/C18.v", "Proofs/TpduTotal.v", "Proofs/TpduReader.v", "Proofs/TpduReaderCompose.v"],
+    model_files=["Model/SemiOctet.v", "Model/Tpdu.v", "Model/TpduRun.v", "Model/TpduReader.v", "Model/TpduReaderRun.v"],
     trusted=["Gen/TpduLayouts.v: reflection over the structs sms.Unmarshal returns (dumper harness/gen_sms.go), classifying each field as the two walks dispatch it; GSM 7-bit tables read through the public decoder",
              "Go value -> Gallina observable printer harness/sms_common.go"],
     assumptions=["bufio.Reader over bytes.Reader, bytes.Buffer, reflect, time.Date/time.Time accessors, strconv.Itoa, x/text transform.Writer/Bytes are Go library code (modelled, tied by the generated cases)",
                  "the io.Reader handed to sms.Unmarshal delivers the octets in pieces of any positive sizes and then io.EOF (with the last piece or on the next call); "
-                 "readers that fail with another error or return (0, nil) are outside the quantifier. Reader independence is proved per primitive (C18_reader_independence_partial) "
-                 "and tested on the composed decoder for every input (four chunking readers)"],
+                 "readers that fail with another error or return (0, nil) are outside the quantifier. Reader independence is proved for the whole decoder (C18_reader_independence: any layouts, "
+                 "any octet string, any two schedules of read sizes, io.EOF with or after the last piece; equal to the list decoder) and tested on the implementation for every input (four chunking readers)"],
 )
 GEN = {"tpdulayouts": "Gen/TpduLayouts.v", "smsoctets": "Gen/SmsOctets.v"}
-ENGINE = {"name": "sms", "path": "coq/Model/SemiOctet.v coq/Model/Tpdu.v coq/Model/TpduReader.v coq/Spec/Gsm0340.v harness/gen_sms.go harness/sms_common.go harness/c18.go harness/c19.go",
+ENGINE = {"name": "sms", "path": "coq/Model/SemiOctet.v coq/Model/Tpdu.v coq/Model/TpduReader.v coq/Model/TpduReaderRun.v coq/Spec/Gsm0340.v harness/gen_sms.go harness/sms_common.go harness/c18.go harness/c19.go",
           "serves_properties": ["C18"], "kind_free_text": "Coq model of the reflection-driven GSM 03.40 TPDU codec over struct layouts regenerated from the code + kernel-evaluated correspondence"}
 MANIFEST = dict(
     engine="sms",
@@ -19,6 +19,6 @@ MANIFEST = dict(
     text="Theorems in coq/Properties/C18.v: for every octet list the model of sms.Unmarshal returns Ok (one of the eight structs, values shaped like its layout) or Err, never Panic; "
          "every value it returns is re-encoded by the model of sms.Marshal with Ok; the pre-fix decoder is refuted by a concrete time stamp with a filler nibble (D18); "
          "reader independence: on a bufio.Reader over a reader that hands out the octets in pieces of any sizes, each primitive the decoder uses (ReadByte, readFull, Peek, Discard) "
-         "returns what the list primitive returns on the octets still to come (C18_reader_independence_partial; composed statement tested, not proved); the single-Read decoder before fix 0373e10 is refuted.",
+         "returns what the list primitive returns on the octets still to come (C18_reader_primitives_independent), and the whole decoder written over that reader returns, for every environment, every octet string and every two schedules of read sizes, the same outcome, equal to the list decoder's (C18_reader_independence, proved by simulation + induction over the field walk; C18_unmarshal_total_any_reader transfers C18 to every reader); the single-Read decoder before fix 0373e10 is refuted.",
     note="Trusted: Coq kernel + vm_compute; layout dumper and Go->Gallina printer; Go library code (bufio, bytes, reflect, time, strconv, x/text/transform). No axioms.",
 )
